@@ -38,6 +38,10 @@ F_OPS = [IO + ":convert_op_to_dict", IO + ":convert_dict_to_op", IO + ":get_paul
          "orquestra.quantum.circuits.layouts:CircuitLayers.to_dict", "orquestra.quantum.circuits.layouts:CircuitConnectivity.to_dict",
          "orquestra.quantum.operators._pauli_operators:PauliTerm.__repr__", "orquestra.quantum.operators._pauli_operators:PauliSum.__repr__"]
 COEFFS = [1, -1, 2.5, -0.75, 1e-07, 3e-9, 123456789.125, 1j, -2j, 0.5 + 0.25j, -1.5 - 2e-07j, complex(2.0, 0.0), complex(-3.0, -0.0), 0, 0.0, -0.0, 0j, 7e14]
+# full-precision mantissas at every other decade (a formatter that trims digits relative to the magnitude moves large coefficients by more than the
+# library's absolute 1e-8 tolerance; one that trims absolutely destroys small ones): real, imaginary and mixed
+PRECISE = [m * 10.0 ** e for e in range(-12, 15, 2) for m in (1.2345678901234567, -9.8765432109876543)]
+COEFFS = COEFFS + PRECISE + [complex(0, x) for x in PRECISE[1::4]] + [complex(x, -y) for x, y in zip(PRECISE[0::5], PRECISE[3::5])]
 STRINGS = ["Z0", "X0*Y1", "Y3*Z12", "X10*X11*Z2", "Z0*Z1*Z2*Z3", "Y7"]
 
 
